@@ -24,6 +24,8 @@ func runC06(p *Program, r *Report) {
 	ruleR065(p, r)
 	r.Rule("R06.4", "E2", 2, "newest first: KeyRing.AllKeys fills the result from the end (index count-i-1), getHistoricalFilePaths puts the current file first")
 	ruleR064(p, r)
+	r.Rule("R06.6", "E2", 4, "destruction reaches the cache, under the right name: in the v1 keystore every removal of a key file is accompanied, in the same function, by a purge (cache.Add(name, nil)) of the entry that key is cached under - the very file-name expression the removed path was built from, or the removed path made relative to the key directory; removing a rotated key also refreshes the cached list of the key's files. Otherwise a warm cache keeps handing out the destroyed key, or the purge hits another key of a similar name")
+	ruleR066(p, r)
 }
 
 // firstListedIndex: the constant value the listing function stores into KeyDescription.Index for the first rotated key.
@@ -401,4 +403,120 @@ func ruleR065(p *Program, r *Report) {
 
 func init() {
 	mut("C06", "rotation-time refresh keys the cache by directory + base name", "keystore/filesystem/server_keystore.go", "func (store *KeyStore) refreshCachedHistoricalFilenames(filename string) {\n	fullPath := filepath.Clean(filename)", "func (store *KeyStore) refreshCachedHistoricalFilenames(filename string) {\n	fullPath := filepath.Join(store.privateKeyDirectory, filepath.Base(filename))", "R06.5", "cache identity")
+}
+
+// ---- R06.6
+var r066Confirmed = map[string]string{
+	"(*keystore/filesystem.KeyStore).WriteKeyFile": "removes the temporary file of a write that failed: never a key, never cached",
+}
+
+// structEq: the same value, or the same pure construction (call of the same function / concatenation) over equal parts.
+func structEq(a, b ssa.Value, depth int) bool {
+	if a == b {
+		return true
+	}
+	if depth > 6 || a == nil || b == nil {
+		return false
+	}
+	switch x := a.(type) {
+	case *ssa.Const:
+		y, ok := b.(*ssa.Const)
+		return ok && x.Value != nil && y.Value != nil && x.Value.ExactString() == y.Value.ExactString()
+	case *ssa.Call:
+		y, ok := b.(*ssa.Call)
+		if !ok || x.Call.StaticCallee() == nil || x.Call.StaticCallee() != y.Call.StaticCallee() || len(x.Call.Args) != len(y.Call.Args) {
+			return false
+		}
+		for i := range x.Call.Args {
+			if !structEq(x.Call.Args[i], y.Call.Args[i], depth+1) {
+				return false
+			}
+		}
+		return true
+	case *ssa.BinOp:
+		y, ok := b.(*ssa.BinOp)
+		return ok && x.Op == y.Op && structEq(x.X, y.X, depth+1) && structEq(x.Y, y.Y, depth+1)
+	case *ssa.Convert:
+		y, ok := b.(*ssa.Convert)
+		return ok && structEq(x.X, y.X, depth+1)
+	}
+	return false
+}
+
+func ruleR066(p *Program, r *Report) {
+	n := 0
+	for _, fn := range p.SrcFuncs("keystore/filesystem") {
+		if fn.Signature.Recv() == nil || !strings.HasSuffix(fn.Signature.Recv().Type().String(), "filesystem.KeyStore") {
+			continue
+		}
+		var purges []ssa.Value
+		refreshes := false
+		for _, cs := range callsIn(fn) {
+			c, ok := cs.Instr.(*ssa.Call)
+			if !ok {
+				continue
+			}
+			args := plainArgs(c)
+			if cs.Instr.Common().IsInvoke() && cs.Instr.Common().Method.Name() == "Add" && len(args) == 2 && isNilConst(args[1]) {
+				purges = append(purges, args[0])
+			}
+			if cs.Callee != nil && cs.Callee.Name() == "refreshCachedHistoricalFilenames" {
+				refreshes = true
+			}
+		}
+		for _, cs := range callsIn(fn) {
+			c, ok := cs.Instr.(*ssa.Call)
+			if !ok || !(cs.Instr.Common().IsInvoke() && cs.Instr.Common().Method.Name() == "Remove") {
+				continue
+			}
+			if !strings.Contains(cs.Instr.Common().Value.Type().String(), "Storage") {
+				continue
+			}
+			n++
+			name := fnName(fn)
+			path := plainArgs(c)[0]
+			construct := "Remove(" + exprTextOf(p, path) + ")"
+			if why, ok := r066Confirmed[name]; ok {
+				r.Confirmed("R06.6", name, construct, p.Pos(c.Pos()), why)
+				continue
+			}
+			okPurge, how := false, ""
+			if pc, isCall := path.(*ssa.Call); isCall && pc.Call.StaticCallee() != nil && (pc.Call.StaticCallee().Name() == "GetPrivateKeyFilePath" || pc.Call.StaticCallee().Name() == "GetPublicKeyFilePath") {
+				nameArg := plainArgs(pc)[0]
+				for _, pv := range purges {
+					if structEq(pv, nameArg, 0) {
+						okPurge, how = true, "cache.Add("+exprTextOf(p, pv)+", nil): the name the removed path was built from"
+					}
+				}
+			} else {
+				// an arbitrary path: purged under its name relative to the key directory, and the cached list refreshed
+				for _, pv := range purges {
+					if ex, isEx := pv.(*ssa.Extract); isEx && ex.Index == 0 {
+						if rc, isC := ex.Tuple.(*ssa.Call); isC {
+							if co := calleeOfCommon(rc.Common()); co != nil && co.FullName() == "path/filepath.Rel" && rc.Call.Args[1] == path {
+								okPurge, how = true, "cache.Add(Rel(key directory, removed path), nil)"
+							}
+						}
+					}
+				}
+				if okPurge && !refreshes {
+					okPurge = false
+					how = "the cached list of the key's files is not refreshed"
+				}
+			}
+			if how == "" {
+				how = "no purge of the cache entry this key file is cached under"
+			}
+			r.Check(okPurge, "R06.6", name, construct, p.Pos(c.Pos()), how, how+": with the key cache on, the destroyed key is still handed out (or a key of a similar name is made unreadable instead)")
+		}
+	}
+	if n < 4 {
+		r.Bad("R06.6", "keystore/filesystem", "key file removals", "-", fmt.Sprintf("%d removals found, 5 confirmed by reading", n))
+	}
+}
+
+func init() {
+	mut("C06", "symmetric key destruction purges the private key's cache entry (original defect)", "keystore/filesystem/server_keystore.go", "	store.cache.Add(getSymmetricKeyName(filename), nil)", "	store.cache.Add(filename, nil)", "R06.6", "destroySymmetricKeyWithFilename")
+	mut("C06", "rotated key destruction leaves the cache alone (original defect)", "keystore/filesystem/server_keystore.go", "	if cacheName, err := filepath.Rel(store.privateKeyDirectory, rotatedKeyPath); err == nil {\n		store.cache.Add(cacheName, nil)\n	}\n	store.refreshCachedHistoricalFilenames(path)\n", "", "R06.6", "destroyRotatedKeyByIndex")
+	mut("C06", "rotated key destruction purges the key but not the cached list", "keystore/filesystem/server_keystore.go", "	store.refreshCachedHistoricalFilenames(path)\n\n	return nil\n}", "	return nil\n}", "R06.6", "destroyRotatedKeyByIndex")
 }
